@@ -53,7 +53,7 @@ def evo_event(args):
     C, R = _W["bp"], _W["ref"]
     oty = "O%d" % k
     ev = {"op": "evo", "ty": "N", "oty": oty, "val": val, "res": "ok", "b": [], "b_old": [], "obs_old": gen.fresh(schema, oty), "obs_new": val,
-          "obs_ref": val, "case": {"ty": "N", "tag": "drop " + ",".join(sorted(drop))}}
+          "obs_ref": val, "stream": "ok", "case": {"ty": "N", "tag": "drop " + ",".join(sorted(drop))}}
     try:
         b = bytes(dyn.conc_bp(schema, C, "N", val))
         ev["b"] = list(b)
@@ -65,6 +65,23 @@ def evo_event(args):
         m = R["N"]()
         m.ParseFromString(b_old)
         ev["obs_ref"] = dyn.obs_ref(schema, m, "N")
+        # the same relay over a size-delimited stream: two copies, the older reader must read both and stop at the end
+        import io
+        import betterproto
+        st = io.BytesIO()
+        nm = dyn.conc_bp(schema, C, "N", val)
+        nm.dump(st, betterproto.SIZE_DELIMITED)
+        nm.dump(st, betterproto.SIZE_DELIMITED)
+        rs = io.BytesIO(st.getvalue())
+        try:
+            o1 = C[oty]().load(rs, betterproto.SIZE_DELIMITED)
+            o2 = C[oty]().load(rs, betterproto.SIZE_DELIMITED)
+            if rs.tell() != len(st.getvalue()):
+                ev["stream"] = "stopped_at_%d_of_%d" % (rs.tell(), len(st.getvalue()))
+            elif bytes(o1) != b_old or bytes(o2) != b_old:
+                ev["stream"] = "relayed_bytes_differ"
+        except Exception as ex:
+            ev["stream"] = type(ex).__name__
     except Exception as ex:
         ev["res"] = type(ex).__name__ + ":" + str(ex)[:60]
     return ev
